@@ -397,7 +397,8 @@ class RadiDict:
                 else:
                     c0 = route[i]
                     for ic, c in enumerate(idx):
-                        if c == c0:
+                        # the param token is never a literal of the route being looked up
+                        if c == c0 and c0 != TOKEN:
                             kidx = ic; break  # found!
 
                 if kidx is None:  # not found
